@@ -197,6 +197,13 @@ class Check:
                            stderr=subprocess.PIPE, text=True, timeout=timeout, preexec_fn=pre)
         if cpu_limit and p.returncode < 0:
             raise CpuLimit(f"harness {args[0]} was killed by signal {-p.returncode} after using its CPU-time budget of {cpu_limit} s")
+        if check and p.returncode == 4:
+            # a call into the code under test burnt minutes of CPU time without returning
+            msg = next((ln for ln in p.stdout.splitlines() if ln.startswith("HANG-OBSERVED")), "")
+            self.violation(f"hang:{args[0]}",
+                           f"a call into the code under test did not return (driver `{args[0]}`): {msg[:600]}",
+                           {"kind": "hang", "args": [str(a) for a in args], "detail": msg})
+            raise HarnessPanic(args[0])
         if check and p.returncode == 3:
             # the code under test panicked where the driver did not expect it: an observation
             msg = next((ln for ln in p.stdout.splitlines() if ln.startswith("UNGUARDED-PANIC")), "")
